@@ -372,7 +372,10 @@ pub fn run_queue_plan(plan: &Value) -> (detsim::Outcome, Option<QueueRun>) {
     let plan = plan.clone();
     let slot: Arc<Mutex<Option<QueueRun>>> = Arc::new(Mutex::new(None));
     let slot2 = slot.clone();
+    // (only where every lock the code under test holds while it reports an error is a simulated one)
+    crate::common::SLOW_SUBSCRIBER_ON.store(true, Ordering::SeqCst);
     let (out, _) = detsim::run(sched, move || queue_main(&plan, slot2));
+    crate::common::SLOW_SUBSCRIBER_ON.store(false, Ordering::SeqCst);
     let r = slot.lock().unwrap().take();
     (out, r)
 }
